@@ -40,6 +40,13 @@ var c04Exits = []struct{ name, code string }{
 	{"raiseB", `raise("E2", "det", [1, 2])`},
 	{"raiseDefault", "raise()"},
 	{"runtime", `z := 1 + "s"`},
+	{"raiseBreakText", `raise("End of iteration was reached")`},
+	{"raiseContinueText", `raise("End of iteration step - Continue iteration", "dd", 3)`},
+	{"raiseNumber", `raise(5)`},
+	{"raiseNullDetail", `raise("E1", null)`},
+	{"raiseNumberDetail", `raise("E2", 7, {"a": 1})`},
+	{"raiseList", `raise([1, 2], "ld")`},
+	{"bareReturn", "return"},
 }
 
 // except-clause sets; %d is replaced by a marker number, H by the handler's extra statement
@@ -61,6 +68,12 @@ var c04Handlers = []struct {
 	{"A as e|NaN", []string{`"E1" as e`, `"Operand is not a number"`}},
 	{"RT|B as e", []string{`"Runtime error"`, `"E2" as e`}},
 	{"B|A|as e", []string{`"E2"`, `"E1"`, "as e"}},
+	{"breaktext", []string{`"End of iteration was reached"`}},
+	{"continuetext as e|A", []string{`"End of iteration step - Continue iteration" as e`, `"E1"`}},
+	{"5|list", []string{`"5"`, `"[1 2]" as e`}},
+	{"A ident", []string{`"E1" e`}},
+	{"A,B ident|bare", []string{`"E1", "E2" e`, ""}},
+	{"B ident|A as e", []string{`"E2" e`, `"E1" as e`}},
 }
 
 func c04Try(body string, clauses []string, handlerExtra string, otherwise, finally string) string {
@@ -72,8 +85,15 @@ func c04Try(body string, clauses []string, handlerExtra string, otherwise, final
 			sb.WriteString(" ")
 		}
 		sb.WriteString(fmt.Sprintf("{\nx.mark(%d)\n", 20+i))
-		if strings.HasSuffix(h, "e") && h != "" && !strings.HasSuffix(h, `"`) {
+		binds := strings.HasSuffix(h, " as e") || h == "e" || h == "as e"
+		if binds {
 			sb.WriteString("x.mark(e.type)\nx.mark(e.data)\n")
+			// the detail text is modelled for raised errors only
+			if strings.Contains(body, "raise(") && !strings.Contains(body, `1 + "s"`) {
+				sb.WriteString("x.mark(e.detail)\n")
+			}
+		} else if strings.HasSuffix(h, " e") {
+			sb.WriteString("x.mark(e)\n") // `except "T" e`: nothing is bound
 		}
 		if handlerExtra != "" {
 			sb.WriteString(handlerExtra + "\n")
@@ -94,6 +114,9 @@ var c04Contexts = []struct{ name, pre, post string }{
 	{"forin", "for i in [1, 2, 3] {\nx.mark(i)\n", "\nx.mark(50)\n}\nx.mark(98)\n99"},
 	{"guardloop", "w := 3\nfor w > 0 {\nw := w - 1\nx.mark(w)\n", "\nx.mark(50)\n}\nx.mark(98)\n99"},
 	{"func", "func f() {\nx.mark(2)\n", "\nx.mark(50)\nreturn 5\n}\nx.mark(f())\nx.mark(98)\n99"},
+	{"forin-in-guardloop", "w := 2\nfor w > 0 {\nw := w - 1\nfor i in [1, 2] {\nx.mark(w * 10 + i)\n", "\nx.mark(50)\n}\nx.mark(51)\n}\nx.mark(98)\n99"},
+	{"guardloop-in-forin", "for i in [1, 2] {\nw := 2\nfor w > 0 {\nw := w - 1\nx.mark(i * 10 + w)\n", "\nx.mark(50)\n}\nx.mark(51)\n}\nx.mark(98)\n99"},
+	{"forin-in-forrange", "for k in range(1, 2) {\nfor i in [1, 2] {\nx.mark(k * 10 + i)\n", "\nx.mark(50)\n}\nx.mark(51)\n}\nx.mark(98)\n99"},
 	{"forrange-in-func", "func f() {\nfor i in range(1, 2) {\nx.mark(i)\n", "\nx.mark(50)\n}\nx.mark(51)\nreturn 5\n}\nx.mark(f())\nx.mark(98)\n99"},
 }
 
@@ -265,6 +288,11 @@ func init() {
 			// ranges: every sign combination of (to - from, step) incl. fractional steps and equal bounds
 			// (a step pointing away from the end gives an empty range); step 0 never ends and is left out
 			steps := []string{"", ", 1", ", 2", ", -1", ", -2", ", 3", ", 0.5", ", -0.5", ", 1.5", ", -1.5"}
+			// fractional steps that are not exact in binary: the elements are those of repeated float addition
+			// (0, 0.1, 0.2, 0.30000000000000004): the end is delivered only if the accumulation hits it
+			for _, r := range []string{"range(0, 0.3, 0.1)", "range(0, 1, 0.1)", "range(1, 0, -0.1)", "range(0, 0.6, 0.2)", "range(0.1, 0.5, 0.1)", "range(0, 2, 0.7)"} {
+				emit("range family, inexact fractional step", "for i in "+r+" {\nx.mark(i)\n}\nx.mark(99)")
+			}
 			rangeLoop := func(a, b int, st string) string {
 				return fmt.Sprintf("for i in range(%d, %d%s) {\nx.mark(i)\n}", a, b, st)
 			}
@@ -462,6 +490,53 @@ func init() {
 					}
 				}
 			}
+			// (3f) break / continue / raise / return raised by a FUNCTION called in a loop guard, an if guard
+			// inside a loop, a for-in iterable or a range argument; bare return; return of a failing expression;
+			// an iterator used as a value; a list mutated by its own loop; loop-variable validation
+			sigPre := "func brk() {\nx.mark(70)\nbreak\n}\nfunc cnt() {\nx.mark(71)\ncontinue\n}\nfunc rai() {\nx.mark(72)\nraise(\"E1\", \"fd\", 8)\n}\nfunc ret() {\nx.mark(73)\nreturn\n}\nfunc val() {\nreturn 2\n}\nc := 0\n"
+			for _, fn := range []string{"brk()", "cnt()", "rai()", "ret()", "val()"} {
+				progs := []string{
+					"for " + fn + " {\nc := c + 1\nx.mark(c)\nif c > 1 {\nbreak\n}\n}",
+					"for c < 3 {\nc := c + 1\nif c == 2 and " + fn + " == 2 {\nx.mark(5)\n}\nx.mark(c)\n}",
+					"for c < 3 {\nc := c + 1\nx.mark(c)\n" + fn + "\nx.mark(c + 10)\n}",
+					"for i in " + fn + " {\nx.mark(i)\n}",
+					"for i in range(1, " + fn + ") {\nx.mark(i)\n}",
+					"for i in range(" + fn + ") {\nx.mark(i)\n}",
+					"for i in [1, 2, 3] {\nx.mark(i)\n" + fn + "\nx.mark(i + 10)\n}",
+					"for i in [1, 2] {\nfor j in " + fn + " {\nx.mark(j)\n}\nx.mark(i)\n}",
+					"for i in [1, 2] {\nw := 2\nfor w > 0 and " + fn + " == 2 {\nw := w - 1\nx.mark(w)\n}\nx.mark(i)\n}",
+				}
+				for _, pr := range progs {
+					emit("signal through a called function", sigPre+pr+"\nx.mark(98)\n99")
+					emit("signal through a called function, in try", sigPre+"try {\n"+pr+"\n} except \"E1\" as e {\nx.mark(e.detail)\nx.mark(e.data)\n} except {\nx.mark(20)\n} otherwise {\nx.mark(30)\n} finally {\nx.mark(40)\n}\nx.mark(98)\n99")
+					emit("signal through a called function, in function", sigPre+"func f() {\n"+pr+"\nreturn 6\n}\nx.mark(f())\nx.mark(98)\n99")
+				}
+			}
+			for _, pr := range []string{
+				"func f() {\nx.mark(1)\nreturn\nx.mark(2)\n}\nx.mark(f())",
+				"func f() {\nfor i in [1, 2] {\ntry {\nreturn\n} finally {\nx.mark(i)\n}\n}\n}\nx.mark(f())",
+				"func f() {\nreturn 1 + \"s\"\n}\ntry {\nx.mark(f())\n} except as e {\nx.mark(e.type)\n}",
+				"func f() {\nreturn l[9]\n}\nl := [1]\nx.mark(f())",
+				"return",
+				"try {\nreturn\n} finally {\nx.mark(1)\n}",
+				"try {\nq := range(3)\nx.mark(q)\n} except as e {\nx.mark(e.type)\n}",
+				"try {\nq := range(3)\n} except \"Function is an iterator\" {\nx.mark(1)\n} otherwise {\nx.mark(2)\n}",
+				"for k in [1, 2, 3] {\ntry {\nx.mark(range(5))\n} except {\nx.mark(k)\n}\n}",
+				"l := [1, 2, 3]\nfor i in l {\nx.mark(i)\nl[2] := 9\n}\nx.mark(l)",
+				"l := [1, 2, 3]\nfor i in l {\nx.mark(i)\nl := add(l, 4)\n}\nx.mark(l)",
+				"l := [1, 2, 3]\nfor i in l {\nx.mark(i)\nl := del(l, 0)\n}\nx.mark(l)",
+				"l := [1, 2, 3]\nfor i in l {\nx.mark(i)\nl[0] := 7\nif i == 2 {\nl := []\n}\n}\nx.mark(l)",
+				"m := {\"a\": 1, \"b\": 2}\nfor [k, v] in m {\nx.mark(k)\nx.mark(v)\nm.b := 5\nm.c := 6\n}\nx.mark(m)",
+				"l := [1]\nfor a.b in l {\nx.mark(1)\n}",
+				"l := [[1, 2]]\nfor [a, b.c] in l {\nx.mark(1)\n}",
+				"l := [[1, 2]]\nfor [a, b, c] in l {\nx.mark(1)\n}\nx.mark(2)",
+				"try {\nfor [a, b] in [1, 2] {\nx.mark(a)\n}\n} except as e {\nx.mark(e.type)\n}",
+				"raise([1, 2])",
+				"try {\nraise({\"a\": 1}, 5, 6)\n} except as e {\nx.mark(e.type)\nx.mark(e.detail)\nx.mark(e.data)\n}",
+				"func b() {\nbreak\n}\nfor i in [1, 2, 3] {\nx.mark(i)\nb()\nx.mark(5)\n}\nx.mark(9)",
+			} {
+				emit("directed control-flow cases", pr+"\nx.mark(98)\n99")
+			}
 			// (4) random nestings
 			n := 3000
 			if g.Thorough() {
@@ -482,6 +557,14 @@ func init() {
 				}
 			}
 		},
-		Run: func(payload string) string { return c04StripPos(evRun(payload)) },
+		Run: func(payload string) string { return c04StripPos(evRunFull(payload)) },
+		// harness C04 -tool payload <source-hex>: the payload (tree of the real parser) of one program
+		Tool: func(args []string) int {
+			if len(args) == 2 && args[0] == "payload" {
+				fmt.Println(evPayload(unhx(args[1])))
+				return 0
+			}
+			return 2
+		},
 	})
 }
